@@ -36,6 +36,33 @@ check(
     "DESIGN.md §4 C03",
 )
 
+check(
+    "C01", "exploration",
+    "Hypothesis-generated hierarchies, method sets over the whole annotation algebra, calls and delegation scripts; "
+    "inside every entered body each bound value is judged against a hand-written statement of the annotation's "
+    "documented meaning. Sampled; soundness only (which method runs is C02/C10).",
+    "Trusts vlib/spec.py's value semantics; unspecified verdicts are skipped and counted.",
+    "property-based testing with an in-body soundness oracle (Hypothesis)",
+    "DESIGN.md §4 C01",
+)
+check(
+    "C04", "exploration",
+    "Hypothesis call histories (2-40 calls with repetition, failures and nested delegation) on one function; each "
+    "observation (outcome, winner, trace) is compared with the same call on a freshly built function. Sampled.",
+    "Differential oracle: independent of any resolution model; assumes building a function is deterministic.",
+    "history-based differential testing against a fresh build (Hypothesis)",
+    "DESIGN.md §4 C04",
+)
+check(
+    "C05", "exploration",
+    "Hypothesis histories of register / re-register / unregister / call / resolve on an Ovld (both entry points) and "
+    "of register / lookup on the public MultiTypeMap; every observation equals the same operation on a brand-new "
+    "function / table built from the surviving registrations. Sampled.",
+    "Survivor semantics (a replaced identical signature stays underneath) taken from the repo's own tests.",
+    "stateful differential testing against a fresh build (Hypothesis)",
+    "DESIGN.md §4 C05",
+)
+
 ALL = [f"C{i:02d}" for i in range(1, 21)]
 REASON_PENDING = "check not built yet in this revision of /verif (work in progress; see DESIGN.md §8)"
 
